@@ -10,7 +10,10 @@ Expected declaration (JSON-able):
   component name of the component element
   classes  {key letters: sorted [[attribute name, type name], ...]} for every class contained in the component; one
            attribute per non-derived attribute of a supported type, typed by the name of the base data type (user types
-           unwrapped; referential attributes: of the referred base attribute)
+           unwrapped through every layer; referential attributes: of the referred base attribute)
+  unclear  names of data types for which the property does not say whether a simple type is declared (not compared):
+           user types layered on a user type whose innermost base is not a supported type, and types that live in a
+           component enclosing the generated one without being contained in it
 """
 import xml.etree.ElementTree as ET
 
@@ -65,6 +68,16 @@ class XWalk(Walk):
                 b = self.udt[i]['CDT_DT_ID']
                 if b in self.dt and self.supported(b):
                     types.append([d['Name'], 'user', self.dt[b]['Name'], []])
+        unclear = []
+        for d in self.t['S_DT']:
+            i = d['DT_ID']
+            if i in self.udt and self.udt[i]['CDT_DT_ID'] in self.udt:
+                b = self.base_type(i)
+                if not ((b in self.cdt and self.cdt[b]['Core_Typ'] in CORE_XS) or b in self.edt):
+                    unclear.append(d['Name'])
+            cs = self.containers(i)
+            if comp_id not in cs and any(c in self.comp and c in self.containers(comp_id) for c in cs):
+                unclear.append(d['Name'])
         classes = {}
         for o in self.t['O_OBJ']:
             if comp_id not in self.containers(o['Obj_ID']):
@@ -86,7 +99,8 @@ class XWalk(Walk):
             classes.setdefault(o['Key_Lett'], []).extend(attrs)
         for k in classes:
             classes[k].sort()
-        return dict(types=sorted(types, key=lambda t: (t[0], t[1], str(t[2]), t[3])), component=comp_name, classes=classes,
+        return dict(types=sorted((t for t in types if t[0] not in unclear), key=lambda t: (t[0], t[1], str(t[2]), t[3])),
+                    component=comp_name, classes=classes, unclear=sorted(set(unclear)),
                     class_count=len([o for o in self.t['O_OBJ'] if comp_id in self.containers(o['Obj_ID'])]))
 
 
@@ -137,7 +151,14 @@ def read_xsd(text):
     return dict(types=sorted(types, key=lambda t: (t[0], t[1], str(t[2]), t[3])), component=name, classes=classes, class_count=count), odd
 
 
+def without(d, names):
+    """The declarations without the simple types of the given names."""
+    return dict(d, types=[t for t in d['types'] if t[0] not in names]) if names else d
+
+
 def compare(obs, ref, out):
+    obs = without(obs, ref.get('unclear'))
+
     def norm(types):
         # an enumeration without enumerators reads back as a plain restriction: compare enumerations by name + enumerators only
         return sorted([t[0], t[3]] if (t[1] == 'enum' or t[3]) else [t[0], t[2]] for t in types)
@@ -301,4 +322,39 @@ def edit_move_class(rows, kl, where):
     pkg, comp = _home(rows, where)
     pe = _container_of(rows, _class_row(rows, kl).get('Obj_ID'))
     pe.set('Package_ID', pkg, guid=True)
+    pe.set('Component_ID', comp, guid=True)
+
+
+def edit_move_type(rows, name, where):
+    """A user / enumeration data type of the model goes to the home of `where` (see _home)."""
+    pkg, comp = _home(rows, where)
+    pe = _container_of(rows, R.type_id(rows, name))
+    pe.set('Package_ID', pkg, guid=True)
+    pe.set('Component_ID', comp, guid=True)
+
+
+def package_names(rows):
+    return [r.get('Name') for r in rows if r.kind == 'EP_PKG']
+
+
+def can_move_package(rows, name, where):
+    """Moving the package directly under component `where` (None: to the top level) creates no containment cycle and is a move."""
+    w = XWalk(rows)
+    pkg = [r for r in rows if r.kind == 'EP_PKG' and r.get('Name') == name][0].get('Package_ID')
+    if pkg not in w.pe:
+        return False
+    pe = w.pe[pkg]
+    if where is None:
+        return not (pe['Package_ID'] == NULL and pe['Component_ID'] == NULL)
+    comp = w.component_id(where)
+    return pkg not in w.containers(comp) and pe['Component_ID'] != comp
+
+
+def edit_move_package(rows, name, where):
+    """The package (with everything in it) goes directly under component `where`; None: to the top level."""
+    assert can_move_package(rows, name, where), (name, where)
+    pkg = [r for r in rows if r.kind == 'EP_PKG' and r.get('Name') == name][0].get('Package_ID')
+    comp = NULL if where is None else [r for r in rows if r.kind == 'C_C' and r.get('Name') == where][0].get('Id')
+    pe = _container_of(rows, pkg)
+    pe.set('Package_ID', NULL, guid=True)
     pe.set('Component_ID', comp, guid=True)
